@@ -9,6 +9,17 @@ def parseOp (s : String) : Option Op :=
   else if s.startsWith "p" then (s.drop 1).toString.toNat?.map (fun n => Op.send (some n))
   else none
 
+def parseOp2 (s : String) : Option Op2 :=
+  if s == "b" then some (.begin none)
+  else if s == "r" then some .resume
+  else if s == "x" then some .abandon
+  else if s.startsWith "B" then (s.drop 1).toString.toNat?.map (fun n => Op2.begin (some n))
+  else (parseOp s).map Op2.base
+
+def showEv : Ev → String
+  | .issued i => "i" ++ toString i.serial
+  | .wire s => "w" ++ toString s
+
 def optStr (o : Option (List Char)) : String :=
   match o with
   | some s => if s.isEmpty then "-" else ",".intercalate (s.map (fun c => toString c.toNat))
@@ -21,6 +32,13 @@ def handle : List String → String
     | some st, some ops =>
       match run ⟨st⟩ ops with
       | some (is, c) => showNats (is.map (·.serial)) ++ " next=" ++ toString c.counter
+      | none => "panic"
+    | _, _ => "bad-op"
+  | ["c13.run2", start, ops] =>
+    match start.toNat?, (ops.splitOn ",").mapM parseOp2 with
+    | some st, some ops =>
+      match run2 ⟨⟨st⟩, none⟩ ops with
+      | some (es, c) => ",".intercalate (es.map showEv) ++ " next=" ++ toString c.conn.counter
       | none => "panic"
     | _, _ => "bad-op"
   | ["c13.reply", kind, serial, sender] =>
